@@ -182,6 +182,9 @@ func cmdFunc(args []string) {
 		if *verbose {
 			fmt.Println("   inlined:", res.Inlined)
 			fmt.Println("   contracts used:", res.UsedCts)
+			for _, a := range res.Assumes {
+				fmt.Println("   assumes:", a)
+			}
 		}
 		fmt.Println("   unchecked callees:", res.Unchecked)
 	}
